@@ -547,6 +547,14 @@ func (g *schemaGenerator) generateType(t *schemas.Type, scope nameScope) (codege
 			return ncg, nil
 		}
 
+		if pcg, ok := cg.(*codegen.PointerType); ok {
+			if ncg, ok := pcg.Type.(codegen.NamedType); ok {
+				for _, imprt := range ncg.Package.Imports {
+					g.output.file.Package.AddImport(imprt.QualifiedName, "")
+				}
+			}
+		}
+
 		return cg, nil
 	}
 }
@@ -995,6 +1003,14 @@ func (g *schemaGenerator) generateTypeInline(t *schemas.Type, scope nameScope) (
 				}
 
 				return ncg, nil
+			}
+
+			if pcg, ok := cg.(*codegen.PointerType); ok {
+				if ncg, ok := pcg.Type.(codegen.NamedType); ok {
+					for _, imprt := range ncg.Package.Imports {
+						g.output.file.Package.AddImport(imprt.QualifiedName, "")
+					}
+				}
 			}
 
 			return cg, nil
